@@ -50,7 +50,7 @@ var Payloads = []Payload{
 }
 
 // Placement names where a payload goes.
-var Placements = []string{"pkgdoc", "funcdoc", "structdoc", "constdoc", "bodycomment", "fieldcomment", "strlit", "rawstr", "logprintf", "logprintln", "fmtprintln", "panicmsg", "conststr", "multiline-doc"}
+var Placements = []string{"pkgdoc", "funcdoc", "structdoc", "constdoc", "bodycomment", "fieldcomment", "strlit", "rawstr", "logprintf", "logprintln", "fmtprintln", "panicmsg", "conststr", "multiline-doc", "strconcat", "strconcat-empty", "strconcat-three", "constconcat", "concat-named-const", "logconcat", "panicconcat"}
 
 func goStringLit(s string) (string, bool) {
 	return fmt.Sprintf("%q", s), true
@@ -143,6 +143,26 @@ func HostilePackage(name string, pl string, p Payload) (*Package, bool) {
 		logE = "\tif a == 12345 {\n\t\tpanic(" + l + ")\n\t}\n"
 	case "conststr":
 		constE, _ = p.lit(), true
+	case "strconcat":
+		// the value comes into being as a constant expression: two literals that each hold half of the payload
+		h := len(p.Text) / 2
+		strE = fmt.Sprintf("%q + %q", p.Text[:h], p.Text[h:])
+	case "strconcat-empty":
+		strE = `"" + ` + p.lit()
+	case "strconcat-three":
+		strE = `"pre " + ` + p.lit() + ` + " post"`
+	case "constconcat":
+		h := len(p.Text) / 2
+		constE = fmt.Sprintf("%q + %q", p.Text[:h], p.Text[h:])
+	case "concat-named-const":
+		constE = p.lit()
+		strE = `Greeting + "!" + Greeting`
+	case "logconcat":
+		h := len(p.Text) / 2
+		logE = fmt.Sprintf("\tlog.Println(%q+%q, a)\n", p.Text[:h], p.Text[h:])
+	case "panicconcat":
+		h := len(p.Text) / 2
+		logE = fmt.Sprintf("\tif a == 12345 {\n\t\tpanic(%q + %q)\n\t}\n", p.Text[:h], p.Text[h:])
 	}
 	b.WriteString(pkgdoc)
 	fmt.Fprintf(&b, "package %s\n\nimport (\n\t\"fmt\"\n\t\"log\"\n)\n\n", name)
